@@ -37,10 +37,42 @@ def undo_renames(P):
         if not missing or not new:
             continue
         fps = {f.qual: fingerprint(f.node, f.name) for f in new}
+        # functions renamed together call each other under their new names: such callees count as one wildcard
+        wild = {q_.split(":")[1].split(".")[-1] for q_ in missing} | {f.name for f in new}
+
+        def norm_fp(fp):
+            return [fp[0], sorted("?" if c in wild else c for c in fp[1]), fp[2]]
+        fps = {k_: norm_fp(v) for k_, v in fps.items()}
+        known_fp = {q_: norm_fp(KNOWN_FP[q_]) for q_ in missing}
+
+        def container_of(q_):
+            return q_.rsplit(".", 1)[0] if "." in q_.split(":")[1] else q_.split(":")[0]
+
+        def similarity(fp_a, fp_b):
+            """same parameter count required; Jaccard similarity of the multisets of called names"""
+            if fp_a[0] != fp_b[0]:
+                return 0.0
+            a, b = list(fp_a[1]), list(fp_b[1])
+            inter = 0
+            rest = list(b)
+            for x in a:
+                if x in rest:
+                    rest.remove(x)
+                    inter += 1
+            union = len(a) + len(b) - inter
+            return 1.0 if union == 0 else inter / union
         pairs = []
         for q in missing:
-            container = q.rsplit(".", 1)[0] if "." in q.split(":")[1] else q.split(":")[0]
-            cands = [f for f in new if (f.qual.rsplit(".", 1)[0] if f.cls is not None else f.qual.split(":")[0]) == container and fps[f.qual] == KNOWN_FP[q]]
+            container = container_of(q)
+            here = [f for f in new if (f.qual.rsplit(".", 1)[0] if f.cls is not None else f.qual.split(":")[0]) == container]
+            cands = [f for f in here if fps[f.qual] == known_fp[q]]
+            if len(cands) != 1:
+                # renamed and touched up in the same change (docstring, a temporary, renamed locals): the calls it
+                # makes still identify it - a unique best match that shares most of its callees
+                scored = sorted(((similarity(known_fp[q], fps[f.qual]), f) for f in here), key=lambda x: -x[0])
+                cands = []
+                if scored and scored[0][0] >= 0.7 and (len(scored) == 1 or scored[1][0] < scored[0][0] - 0.15) and len(known_fp[q][1]) >= 2:
+                    cands = [scored[0][1]]
             if len(cands) == 1:
                 pairs.append((q, cands[0]))
         # a new function may stand for one old function only
@@ -74,4 +106,24 @@ def undo_renames(P):
             f.qual = q
             P.funcs[q] = f
             done.append((newname, q))
+    # a module-level function that moved to another module of the package and is imported back under its name:
+    # it keeps its old qualified name in the model (its body is still resolved in the module it now lives in)
+    for m in P.modules.values():
+        if m.is_tools:
+            continue
+        for q in [q_ for q_ in KNOWN_FUNCS if q_.startswith(m.name + ":") and "." not in q_.split(":")[1] and q_ not in P.funcs]:
+            name = q.split(":")[1]
+            imp = m.imports.get(name)
+            if imp is None or imp[0] != "pkg" or imp[2] != name:
+                continue
+            src = P.modules.get(imp[1])
+            f = src.funcs.get(name) if src is not None else None
+            if f is None or f.qual in KNOWN_FUNCS:
+                continue
+            P.funcs.pop(f.qual, None)
+            f.qual = q
+            P.funcs[q] = f
+            m.funcs[name] = f
+            m.imports.pop(name, None)
+            done.append((name + " (moved to %s)" % src.name, q))
     return done
